@@ -33,17 +33,17 @@ CLAIMED = {
     design="§7 C06", technique="Lean 4 proof (signature layout, determinism, canonical-S rejection) + differential correspondence impl/RFC-8032 Lean spec/libsodium",
     note="dalek Edwards arithmetic and sha2 are modelled by Lean specs, not verified; verify∘sign needs the group law (abstract-group theorem)."),
  "C07": dict(
-    text="Lean theorems: the limb-level model of poly1305_soft.rs equals RFC 8439 for every key and message (all carry corners) and never overflows a checked u64/u128 operation; the model of blake2b_soft.rs (code-shaped compress = RFC 7693 F, parameter block, keyed init, buffering, finalize) equals RFC 7693 for every digest/key length; code-shaped HSalsa20 (16 named words, 32 statements × 10) = Salsa20 doubleround spec, HChaCha20 = RFC quarter-round spec, SipHash-2-4 (chunks_exact loop + remainder + len<<56) = the paper's word parsing for every length, HMAC-SHA-512-256 construction = RFC 2104 spec (SHA-512 a parameter), verify ok iff tag = MAC, little-endian increment = +1 mod 256^n. Tied to the code by impl vs model vs Lean spec vs libsodium over every length 0..=L, every BLAKE2b digest/key length and constructed Poly1305 carry corners.",
-    design="§7 C07", technique="Lean 4 proof of model = spec (limb arithmetic, carries, overflow freedom) + differential correspondence impl/model/spec/libsodium",
+    text="Lean theorems: the limb-level model of poly1305_soft.rs equals RFC 8439 for every key and message (all carry corners) and never overflows a checked u64/u128 operation; the model of blake2b_soft.rs (code-shaped compress = RFC 7693 F, parameter block, keyed init, buffering, finalize) equals RFC 7693 for every digest/key length; code-shaped HSalsa20 (16 named words, 32 statements × 10) = Salsa20 doubleround spec, HChaCha20 = RFC quarter-round spec, SipHash-2-4 (chunks_exact loop + remainder + len<<56) = the paper's word parsing for every length, HMAC-SHA-512-256 construction = RFC 2104 spec (SHA-512 a parameter), verify ok iff tag = MAC, little-endian increment = +1 mod 256^n. The arithmetic kernels themselves (load_u64_le, Poly1305 new/blocks/finalize tail, BLAKE2b tables + compress + counter, siphash24, crypto_core_hchacha20/hsalsa20) are MACHINE-TRANSLATED from /repo/src by tools/rs2lean.py on every run and proved equal to the model for all inputs (translated_* theorems), so an edited constant/operator/carry breaks a proof obligation. Tied to the code additionally by impl vs model vs Lean spec vs libsodium over every length 0..=L, every BLAKE2b digest/key length and constructed Poly1305 carry corners.",
+    design="§7 C07", technique="Lean 4 proof of model = spec (limb arithmetic, carries, overflow freedom) + kernels regenerated from source by a translator and proved equal to the model + differential correspondence impl/model/spec/libsodium",
     note="dependency crates (sha2) are modelled by the Lean spec, not verified."),
  "C08": dict(
     text="Lean theorems: Poly1305 — any list of update chunks (empty, straddling, exactly filling) gives the one-shot result; BLAKE2b — init; update c1..cn; finalize depends only on the concatenation FOR ANY COMPRESSION FUNCTION (so for the software and the SIMD backend), the held-back buffer never exceeds one block (dead finalize branch), incremental generichash with salt/personal = RFC 7693; HMAC incremental = one-shot (sha2's own buffering is not modelled). Tied to the code and extended to SHA-512 and incremental signing by exhaustive 2-way/3-way split enumeration and random k-way partitions, impl incremental vs libsodium one-shot vs Lean spec vs Lean buffering model.",
     design="§7 C08", technique="Lean 4 proof (induction over the chunk list with a buffering invariant) + exhaustive split enumeration",
     note="sha2's buffering (SHA-512/HMAC/incremental signing) is not modelled; differential only."),
  "C09": dict(
-    text="Lean theorems about dryoc's Argon2 glue (parameter validation iff, the (opslimit, memlimit) → (t, m) conversion, instance arithmetic m′ = 4p⌊m/4p⌋, index_alpha never under/overflows and equals the RFC 9106 §3.4 mapping, prev/curr offsets stay in the lane, addressing mode, H′ chunk arithmetic) and base64; the hand model of argon2.rs is validated against the Lean RFC 9106 spec. Tied to the code by impl vs model vs Lean RFC 9106 spec vs libsodium over output lengths 16..1100, password lengths, t=1..6, memory sizes incl. non-multiples of 4 KiB, salts 8..64, rejected points.",
-    design="§7 C09", technique="Lean 4 proof (validation, index/offset arithmetic, H′ structure) + differential correspondence impl/model/RFC-9106 Lean spec/libsodium",
-    note="full loop-nest equivalence model = RFC recurrence may be partial (named _partial); BLAKE2b compression trusted as specified."),
+    text="Lean theorems about dryoc's Argon2 glue (parameter validation iff, the (opslimit, memlimit) → (t, m) conversion, instance arithmetic m′ = 4p⌊m/4p⌋, index_alpha never under/overflows and equals the RFC 9106 §3.4 mapping, prev/curr offsets stay in the lane, addressing mode, H′ chunk arithmetic) and base64; fill_memory of the model = the RFC 9106 spec for every valid parameter set. fblamka, index_alpha, blake2_round_nomsg and the index tuples of fill_block are MACHINE-TRANSLATED from argon2.rs by tools/rs2lean.py on every run and proved equal to the model (translated_* theorems). Tied to the code additionally by impl vs model vs Lean RFC 9106 spec vs libsodium over output lengths 16..1100, password lengths, t=1..6, memory sizes incl. non-multiples of 4 KiB, salts 8..64, rejected points.",
+    design="§7 C09", technique="Lean 4 proof (validation, index/offset arithmetic, H′ structure, model = RFC 9106) + kernels regenerated from source by a translator and proved equal to the model + differential correspondence impl/model/RFC-9106 Lean spec/libsodium",
+    note="the loop nest around the kernels (fill_segment, generate_addresses) is hand-modelled and tied by the correspondence run; holds under 7·segment_length < 2^32+3."),
  "C10": dict(
     text="Lean theorems over the string model (encoder, field-by-field parser as written, needs-rehash, verify): decimal and base64 round trips, the encoder never emits a separator inside a field, parse∘encode = ok with exactly the encoded fields for both algorithms and ANY non-empty salt/hash (incl. base64 text starting with 'argon2'), reencode∘encode = id, encode is injective (self-describing), needs_rehash = false iff both costs match (KiB truncation included), strVerify ok iff Argon2 reproduces the stored hash, parser/needs-rehash/verify never panic and parse-ok implies every later unwrap succeeds. Tied to the code by strings produced by dryoc (salt fixed through hook H3; object API with salts 8..64 and hashes 16..128) verified by libsodium and vice versa, parse→re-encode, needs-rehash grid.",
     design="§7 C10", technique="Lean 4 proof (round-trip theorems for encoder/parser, needs-rehash iff) + differential correspondence impl/model/libsodium",
